@@ -105,7 +105,9 @@ func (c *compressor) decompressCellblocks(b []byte) ([]byte, error) {
 			return nil, fmt.Errorf("failed to read uncompressed block length: %w", err)
 		}
 
-		out = slices.Grow(out, int(uncompressedBlockLen))
+		// The length comes from the wire, don't allocate more than a chunk
+		// worth of memory before anything has been decompressed.
+		out = slices.Grow(out, min(uncompressedBlockLen, c.ChunkLen()))
 
 		// read and decompress encoded chunks until whole block is read
 		var uncompressedSoFar uint32
